@@ -82,6 +82,17 @@ Definition dump_of_bytes (bs : list Z) : option dump :=
   match decode_dump bs with Some v => dump_of_view v | None => None end.
 End Reader.
 
+(* ------------------------------------------------------------------ the record without its CPU contexts *)
+(* (contexts are byte-order specific blobs; everything else of the index is not) *)
+Definition forget_thread_ctx (t : thread) : thread := {| t_id := t_id t; t_ctx := None; t_stack := t_stack t; t_sbase := t_sbase t |}.
+Definition forget_exc_ctx (x : exception) : exception :=
+  {| e_tid := e_tid x; e_code := e_code x; e_flags := e_flags x; e_nparams := e_nparams x; e_info0 := e_info0 x; e_info1 := e_info1 x;
+     e_info2 := e_info2 x; e_addr := e_addr x; e_ctx := None |}.
+Definition forget_ctx (d : dump) : dump :=
+  {| d_platform := d_platform d; d_arch := d_arch d; d_time := d_time d; d_threads := map forget_thread_ctx (d_threads d);
+     d_names := d_names d; d_exc := option_map forget_exc_ctx (d_exc d); d_bp := d_bp d; d_misc := d_misc d; d_status := d_status d;
+     d_modules := d_modules d; d_unloaded := d_unloaded d; d_mems := d_mems d |}.
+
 (* ------------------------------------------------------------------ what a missing / unreadable stream means to MinidumpInfo::new *)
 (* (stream type, 0 = required: processing fails | 1 = optional: treated as absent ([sres_opt]) | 2 = optional with an empty default
    ([sres_list])) for the streams [dump_of_view] reads; tied to the get_stream calls of MinidumpInfo::new by
